@@ -13,6 +13,7 @@ import WpModel.Model.WriteState
 import WpModel.Model.TextDecoration
 import WpModel.Model.AttachDates
 import WpModel.Model.SvgDraw
+import WpModel.Model.CounterDict
 
 namespace Wp.Drive.C19
 open Wp
@@ -478,9 +479,26 @@ def handleSvgDraw (cmd : String) (args : List Sx) : Option String :=
     pure (" ".intercalate entered ++ " | " ++ " ".intercalate (r.2.map toString))
   | _, _ => none
 
+/-- `counterdict (uaName…) (((name tag)…) …) (probe…)` — renders sharing one dictionary → after every render, for every
+probe name, `name=tag` (`-` when absent), joined by `;`, renders by ` | `. -/
+def handleCounterDict (cmd : String) (args : List Sx) : Option String :=
+  match cmd, args with
+  | "counterdict", [.list ua, .list docs, .list probes] => do
+    let ua ← allSome Sx.atom? ua
+    let rule? : Sx → Option (String × String) := fun r => match r with
+      | .list [n, t] => do pure (← n.atom?, ← t.atom?)
+      | _ => none
+    let docs ← allSome (fun d => d.list?.bind (allSome rule?)) docs
+    let probes ← allSome Sx.atom? probes
+    let dicts := Wp.CounterDict.runRenders (ua.map (fun n => (n, "ua"))) [] docs
+    pure (" | ".intercalate (dicts.map (fun d =>
+      ";".intercalate (probes.map (fun n => n ++ "=" ++ (Wp.CounterDict.dget d n).getD "-")))))
+  | _, _ => none
+
 def handle (cmd : String) (args : List Sx) : Option String :=
   (handlePages cmd args).orElse fun _ => (handleImages cmd args).orElse fun _ =>
     (handleControl cmd args).orElse fun _ => (handleWriteState cmd args).orElse fun _ =>
-    (handleTextDeco cmd args).orElse fun _ => (handleAttach cmd args).orElse fun _ => handleSvgDraw cmd args
+    (handleTextDeco cmd args).orElse fun _ => (handleAttach cmd args).orElse fun _ =>
+    (handleSvgDraw cmd args).orElse fun _ => handleCounterDict cmd args
 
 end Wp.Drive.C19
